@@ -152,8 +152,10 @@ pub fn run(args: &Args) {
             }
             cur = next;
         }
-        let full = pipeline(&ast, None);
-        let restorer_changed = full != pipeline(&ast, Some("restore_on_err"));
+        // layer (b) judges what `optimize` really returns; the pipeline rebuilt from the single pass
+        // functions is used only to see which passes rewrote the grammar and for attribution
+        let full = _optimized;
+        let restorer_changed = pipeline(&ast, None) != pipeline(&ast, Some("restore_on_err"));
         if restorer_changed {
             rep.count("pass_changed_grammar:restore_on_err");
         }
@@ -186,7 +188,7 @@ fn check_grammar_case(rep: &mut Report, text: &str, ast: &[Rule], _vm: Option<&p
         }
         cur = next;
     }
-    let vm = pest_vm::Vm::new(pipeline(ast, None));
+    let vm = pest_vm::Vm::new(pest_meta::optimizer::optimize(ast.to_vec()));
     check_case(rep, text, ast, &stages, Some(&vm), rule, input, true);
 }
 
